@@ -4,6 +4,7 @@
 -/
 import Axelar.Proofs.GatewayProofs
 import Axelar.Proofs.BytesLemmas
+import Axelar.Proofs.GwHistory
 namespace Axelar.Props.C02
 open Axelar Axelar.Gateway Axelar.GatewaySpec Codec
 
@@ -187,6 +188,19 @@ theorem state_codec_roundtrip (s : MsgState)
     have hne2 : x ≠ Generated.messageExecuted := by
       intro hx; rw [hx] at hl; simp [Generated.messageExecuted] at hl
     simp [decodeState, encodeState, hl, hne, hne2]
+
+/-! ### In the whole world -/
+
+/-- **The life cycle survives composition with every other contract**: in the world where the
+    token service, governance, token managers and the gas service call the gateway (validation
+    inside their own transactions, asynchronous steps delivered in any order), every operation
+    of every schedule leaves an executed message executed and replaces an approval only by
+    `executed`. -/
+theorem lifecycle_in_the_whole_world (C : Crypto) (w : World) (ops : List World.Op) (k : Bytes × Bytes) :
+    (w.gw.messages k = .executed → (World.run C w ops).gw.messages k = .executed) ∧
+    (∀ h, w.gw.messages k = .approved h →
+      (World.run C w ops).gw.messages k = .approved h ∨ (World.run C w ops).gw.messages k = .executed) :=
+  World.run_life C ops w k
 
 /-! ### Non-vacuity (test) -/
 example : Trans .nonExistent (.approved [1]) ∧ Trans (.approved [1]) .executed :=
